@@ -229,6 +229,7 @@ type World struct {
 	Prov      fosite.OAuth2Provider
 	now       time.Time
 	cancelReq context.CancelFunc
+	KeyFault  error // when set, the signing-key provider answers with this error
 	Rand      *DetReader
 	Names     *Namer
 	Secrets   map[string]string // client id -> plaintext secret
@@ -398,7 +399,12 @@ func NewWorld(p Profile) *World {
 	if alg != "" && idk != "oct" {
 		signKey = &jose.JSONWebKey{Key: w.IDKey, Algorithm: alg, KeyID: "kid-" + idk, Use: "sig"}
 	}
-	keyGetter := func(context.Context) (interface{}, error) { return signKey, nil }
+	keyGetter := func(context.Context) (interface{}, error) {
+		if w.KeyFault != nil {
+			return nil, w.KeyFault // the key provider (KMS, file, HSM) fails
+		}
+		return signKey, nil
+	}
 	hm := compose.NewOAuth2HMACStrategy(cfg)
 	w.HMAC = hm
 	var core interface{} = hm
